@@ -564,7 +564,14 @@ def translate_grid(repo):
 
     def method(name):
         lines = []
+        mutated = False
         for t in meth[name].body:
+            if isinstance(t, ast.Assert):
+                if mutated:
+                    # `assert` is translated as a refusal that leaves the state unchanged: only sound before any update
+                    refuse(t, 'assert after a state-changing statement in %s (a refused call would leave side effects)' % name)
+            elif not (isinstance(t, ast.Expr) and isinstance(t.value, ast.Constant)):
+                mutated = True
             stmt(t, lines, 1)
         return '\n'.join(lines + ['  some s'])
 
